@@ -70,7 +70,7 @@ type PluginSpec struct {
 
 // Fault is what goes wrong with a plugin during the main request. Kind:
 //
-//	none | cut | close | hang | error | wrongtype | undecodable | garbage | dying | exit | leave
+//	none | cut | close | hang | error | wrongtype | undecodable | garbage | dying | exit | leave | updrop
 type Fault struct {
 	Kind string `json:"kind"`
 
@@ -108,6 +108,17 @@ type Fault struct {
 	// Kind "leave" is a plugin that answers normally and then leaves.
 	Then   string `json:"then,omitempty"`
 	ThenMs int    `json:"then_ms,omitempty"`
+
+	// UpdDuring "handler": the plugin issues an unsolicited UpdateContainers call from inside
+	// its handler of the first request, before its fault strikes (the call waits behind the
+	// request; the plugin is dropped with the update queued). Kinds hang, close (during), error,
+	// cut p2r, wrongtype, undecodable.
+	UpdDuring string `json:"upd_during,omitempty"`
+	// Kind "updrop": while the healthy plugin HoldIdx holds the first request in its handler for
+	// HoldMs (50..200), this plugin issues an unsolicited UpdateContainers call from a goroutine
+	// of its own and, half-way through the hold, disconnects.
+	HoldIdx int `json:"hold_idx,omitempty"`
+	HoldMs  int `json:"hold_ms,omitempty"`
 
 	ConnID    uint32 `json:"conn_id,omitempty"`
 	DeclLen   uint32 `json:"decl_len,omitempty"`
@@ -406,6 +417,31 @@ func genC07(t *rapid.T) C07Case {
 			}
 		}
 		c.Plugins = append(c.Plugins, ps)
+	}
+	// updates issued during the first request
+	var holders []int
+	for _, ps := range c.Plugins {
+		if !ps.Launched && ps.Fault.Kind == "none" {
+			holders = append(holders, ps.Idx)
+		}
+	}
+	for i := range c.Plugins {
+		ps := &c.Plugins[i]
+		if ps.Launched {
+			continue
+		}
+		ft := &ps.Fault
+		eligible := ft.Kind == "hang" || ft.Kind == "wrongtype" || ft.Kind == "undecodable" || (ft.Kind == "error" && ft.Then == "") ||
+			(ft.Kind == "close" && ft.When == "during") || (ft.Kind == "cut" && ft.Dir == "p2r")
+		switch d := rapid.IntRange(0, 3).Draw(t, "upd-during"); {
+		case eligible && d == 0:
+			ft.UpdDuring = "handler"
+		case eligible && d == 1 && len(holders) > 0 && ft.Kind != "hang" && ft.Kind != "error":
+			// instead: disconnects with an update queued while a healthy plugin holds the request
+			*ft = Fault{Kind: "updrop", HoldIdx: rapid.SampledFrom(holders).Draw(t, "holder"),
+				HoldMs: rapid.SampledFrom([]int{50, 200, 100, 150}).Draw(t, "hold-ms")}
+			holders = nil // one per case
+		}
 	}
 	if c.Joiner != nil {
 		c.Joiner.Phase = rapid.SampledFrom([]string{"synchronize", "configure", "synchronize"}).Draw(t, "join-phase")
